@@ -10,16 +10,22 @@
    - value context drops whitespace except next to `+`/`-` inside math functions
      (calc/min/max/clamp, any letter case, through nested parentheses), converts every `rpx`
      dimension, and must not separate the pieces of a unicode-range;
-   - rule lists nest inside media/supports/document/layer/container/scope/starting-style
-     (any letter case);
-   - `:host{}` rules move to the low-priority output inside the chain of enclosing at-rules;
-   - `@import` (string, url token or url() function) becomes the placeholder comment.
+   - rule lists nest inside media/supports/document/-moz-document/layer/container/scope/
+     starting-style (any letter case);
+   - `:host{}` rules (any letter case) move to the low-priority output inside the chain of
+     enclosing at-rules; a rule with `:host` anywhere else among the top-level tokens of its
+     selector is dropped with a warning;
+   - `@import` (any letter case; string, url token or url() function) becomes the placeholder
+     comment inside wrappers for `layer` / `layer(..)` / `supports(..)` (any letter case) and the
+     media query; it is flagged unless only `@charset` / `@import` rules precede it at the top level;
+   - every `rpx` dimension is converted, also directly in an at-rule prelude (the code does not
+     convert there: known class D29, pinned by the unit test transform_rpx_in_simple_at_rules).
 
    Every emitted token carries the requirement on the gap in front of it:
    GReq = whitespace required, GNo = whitespace forbidden, GFree = no requirement.
 
    `known` lists the narrow decidable classes of inputs on which the code is known to deviate
-   (known_findings.json: D15 D24 D27 D28); `wf_tree` is "well-formed stylesheet". *)
+   (known_findings.json: D15 D24 D27 D28 D29); `wf_tree` is "well-formed stylesheet". *)
 From GE Require Export Model.Css.
 Open Scope N_scope.
 
@@ -37,6 +43,7 @@ Definition child_math (math : bool) (open : tok) : bool :=
 
 Definition ideal_contain (x : str) : bool :=
   str_eqb_ci x s_media || str_eqb_ci x s_supports || str_eqb_ci x s_document ||
+  str_eqb_ci x s_moz_document ||
   str_eqb_ci x s_layer || str_eqb_ci x s_container || str_eqb_ci x s_scope ||
   str_eqb_ci x s_starting_style.
 
@@ -218,6 +225,7 @@ Fixpoint at_prelude_spec (o : opts) (l : list node) : list etok :=
         (match n with
          | Block open _ body _ _ =>
              [mke GFree open] ++ sel_spec o true body true false false false ++ [mke GFree (close_of open)]
+         | Leaf (TDim nm u) _ => [mke GFree (rpx_tok o nm u)]
          | Leaf t _ => [mke GFree t]
          end) ++ at_prelude_spec o r
   end.
@@ -227,18 +235,34 @@ Inductive host_kind := HostNone | HostPure | HostCombined.
 
 (* `:host` = a colon directly followed by the identifier / function `host`; comments do not
    separate tokens, whitespace does (`: host` is not a pseudo-class) *)
-Definition host_kind_of (prelude : list node) : host_kind :=
+Fixpoint has_host (l : list node) (after_colon : bool) : bool :=
+  match l with
+  | [] => false
+  | n :: r =>
+      if is_comment (node_tok n) then has_host r after_colon
+      else match n with
+           | Leaf (TIdent s) _ => (after_colon && str_eqb_ci s s_host) || has_host r false
+           | Block (TFunc s) _ _ _ _ => (after_colon && str_eqb_ci s s_host) || has_host r false
+           | Leaf TColon _ => has_host r true
+           | _ => has_host r false
+           end
+  end.
+
+Definition host_pure (prelude : list node) : bool :=
   match skip_ws prelude with
   | Leaf TColon _ :: after =>
       match skip_comments after with
-      | Leaf (TIdent s) _ :: rest =>
-          if str_eqb s s_host then (if all_ws rest then HostPure else HostCombined) else HostNone
-      | Block (TFunc s) _ _ _ _ :: _ =>
-          if str_eqb s s_host then HostCombined else HostNone
-      | _ => HostNone
+      | Leaf (TIdent s) _ :: rest => str_eqb_ci s s_host && all_ws rest
+      | _ => false
       end
-  | _ => HostNone
+  | _ => false
   end.
+
+(* pure: the selector is `:host` alone; combined: `:host` (or `:host(`) occurs among the top-level
+   tokens of any other selector (`:host .a`, `.a, :host`, `a:host`) *)
+Definition host_kind_of (prelude : list node) : host_kind :=
+  if host_pure prelude then HostPure
+  else if has_host prelude false then HostCombined else HostNone.
 
 Definition attr_sel (name value : str) : list etok :=
   [mke GFree TSquare; mke GFree (TIdent name); mke GFree (TDelim 61); mke GFree (TStr value);
@@ -268,20 +292,26 @@ Definition spec_import_target (l : list node) : option (str * list node) :=
 
 (* conditions after the target: layer(..) / supports(..) wrappers, then a media query;
    returns (opening tokens, number of blocks opened) *)
-Fixpoint import_conds_spec (o : opts) (l : list node) : list etok * nat * list node :=
+Fixpoint import_conds_spec (o : opts) (l : list node) (first : bool) : list etok * nat * list node :=
   match l with
   | [] => ([], O, [])
   | n :: r =>
-      if is_ws_or_comment (node_tok n) then import_conds_spec o r
+      if is_ws_or_comment (node_tok n) then import_conds_spec o r first
       else match n with
            | Block (TFunc x) _ body _ _ =>
-               if str_eqb x s_layer then
-                 let '(t, k, rest) := import_conds_spec o r in
+               if str_eqb_ci x s_layer then
+                 let '(t, k, rest) := import_conds_spec o r false in
                  ([mke GFree (TAt x)] ++ val_spec o false body None false ++ [mke GFree TCurly] ++ t, S k, rest)
-               else if str_eqb x s_supports then
-                 let '(t, k, rest) := import_conds_spec o r in
+               else if str_eqb_ci x s_supports then
+                 let '(t, k, rest) := import_conds_spec o r false in
                  ([mke GFree (TAt x); mke GFree TParen] ++ sel_spec o true body true false false false
                   ++ [mke GFree TCloseParen; mke GFree TCurly] ++ t, S k, rest)
+               else ([], O, l)
+           | Leaf (TIdent x) _ =>
+               (* the bare `layer` keyword directly after the target: an anonymous layer *)
+               if first && str_eqb_ci x s_layer then
+                 let '(t, k, rest) := import_conds_spec o r false in
+                 ([mke GFree (TAt x); mke GFree TCurly] ++ t, S k, rest)
                else ([], O, l)
            | _ => ([], O, l)
            end
@@ -291,7 +321,7 @@ Definition import_spec (o : opts) (sign : str) (prelude : list node) : option (l
   match spec_import_target prelude with
   | None => None
   | Some (path, r) =>
-      let '(conds, k, rest) := import_conds_spec o r in
+      let '(conds, k, rest) := import_conds_spec o r true in
       match skip_ws rest with
       | [] | Leaf (TIdent _) _ :: _ | Block TParen _ _ _ _ :: _ =>
       let media := at_prelude_spec o rest in
@@ -331,7 +361,7 @@ Fixpoint rules_spec (fuel : nat) (o : opts) (chain : list (list etok)) (l : list
       | Leaf (TAt x) _ :: r =>
           let '(prelude, term, rest) := take_prelude true r in
           let this :=
-            match (if str_eqb x s_import then import_sign o else None) with
+            match (if str_eqb_ci x s_import then import_sign o else None) with
             | Some sign =>
                 let w := if at_start then [] else [W_IMPORT_POS] in
                 match import_spec o sign prelude, term with
@@ -346,7 +376,7 @@ Fixpoint rules_spec (fuel : nat) (o : opts) (chain : list (list etok)) (l : list
                 match term with
                 | Some (Block _ _ body _ _) =>
                     if ideal_contain x then
-                      let inner := rules_spec f o (chain ++ [head ++ [mke GFree TCurly]]) body true in
+                      let inner := rules_spec f o (chain ++ [head ++ [mke GFree TCurly]]) body false in
                       mkso (head ++ [mke GFree TCurly] ++ so_normal inner ++ [mke GFree TCloseCurly])
                            (so_low inner) (so_warn inner) (so_paths inner) (so_complete inner)
                     else
@@ -356,7 +386,9 @@ Fixpoint rules_spec (fuel : nat) (o : opts) (chain : list (list etok)) (l : list
                 | None => mkso head [] [] [] false
                 end
             end in
-          so_app this (rules_spec f o chain rest false)
+          (* an import is at the start of the sheet while only `@charset` / `@import` rules precede it *)
+          so_app this (rules_spec f o chain rest
+                         (at_start && (str_eqb_ci x s_import || str_eqb_ci x s_charset)))
       | l0 =>
           let '(prelude, term, rest) := take_prelude false l0 in
           let this :=
@@ -498,6 +530,32 @@ Fixpoint k28_list (l : list node) : bool :=
        end) || k28_list r
   end.
 
+(* D29: an `rpx` dimension directly in the prelude of an at-rule (not inside a block of it) is
+   written unchanged; pinned by the unit test transform_rpx_in_simple_at_rules (`@a 75rpx;`).
+   Curly blocks are searched recursively (rule lists and declaration lists alike). *)
+Section K29.
+Variable rec : node -> bool.
+Fixpoint k29_l (l : list node) (in_at : bool) : bool :=
+  match l with
+  | [] => false
+  | n :: r =>
+      match n with
+      | Leaf (TAt _) _ => k29_l r true
+      | Leaf TSemi _ => k29_l r false
+      | Leaf (TDim _ u) _ => (in_at && str_eqb u s_rpx) || k29_l r in_at
+      | Leaf _ _ => k29_l r in_at
+      | Block TCurly _ _ _ _ => rec n || k29_l r false
+      | Block _ _ _ _ _ => k29_l r in_at
+      end
+  end.
+End K29.
+Fixpoint k29_node (n : node) : bool :=
+  match n with
+  | Leaf _ _ => false
+  | Block _ _ body _ _ => k29_l k29_node body false
+  end.
+Definition k29_list (l : list node) : bool := k29_l k29_node l false.
+
 (* D24: cssparser prints a dimension whose unit starts with e/E followed by a digit (or by
    `-` and a digit, already escaped by the serializer... only the digit case is open) so that
    it re-tokenises as a number in scientific notation *)
@@ -517,18 +575,18 @@ Fixpoint k24_node (n : node) : bool :=
 
 (* whole-sheet scan for the rule-level classes; returns the list of class ids that apply *)
 Definition K15 : N := 15.  Definition K24 : N := 24.
-Definition K27 : N := 27.  Definition K28 : N := 28.
+Definition K27 : N := 27.  Definition K28 : N := 28.  Definition K29 : N := 29.
 
 Definition flag (b : bool) (k : N) : list N := if b then [k] else [].
 
-(* class ids that apply to a sheet (without repetition).  All remaining classes (15, 24, 27, 28) are
-   properties of the token tree alone and all of them are limits of cssparser's serializer.  The
+(* class ids that apply to a sheet (without repetition).  All remaining classes (15, 24, 27, 28, 29) are
+   properties of the token tree alone; 15, 24, 27, 28 are limits of cssparser's serializer.  The
    former classes 13, 14, 17, 23, 25, 26 (and 22 of the source maps) were repaired in the code
    (fix: commits) and no longer exist: such sheets are checked like any other. *)
 Definition known (o : opts) (tree : list node) : list N :=
   nodup N.eq_dec
     (flag (k15_list tree) K15 ++ flag (existsb k24_node tree) K24 ++ flag (k27_list tree) K27
-     ++ flag (k28_list tree) K28).
+     ++ flag (k28_list tree) K28 ++ flag (k29_list tree) K29).
 
 Definition wf_tree (o : opts) (tree : list node) : bool :=
   wf_nodes true tree && so_complete (expected o tree).
